@@ -42,9 +42,9 @@ def r011(ctx, t0, t1):
         ctx.violation("R01.1", "update_expr_children:shape", f["span"], "UNRECOGNISED: no match over (node, children) found")
         return
     es = peel(m["scrut"])["es"]
-    node_e = peel(es[0])
-    ok_scrut = node_e.get("k") == "index" and callee(node_e) == INDEX_EXPR and peel(node_e["i"]).get("k") == "local" and params[1] and peel(node_e["i"])["id"] == params[1][1]
-    ok_scrut = ok_scrut and peel(es[1]).get("k") == "local" and params[2] and peel(es[1])["id"] == params[2][1]
+    node_e = resolve(es[0])
+    ok_scrut = node_e.get("k") == "index" and callee(node_e) == INDEX_EXPR and params[1] and is_local(node_e["i"], params[1][1])
+    ok_scrut = ok_scrut and params[2] and is_local(es[1], params[2][1])
     ctx.inst("R01.1", "update_expr_children:scrutinee", ok_scrut, m["sp"], "the match does not inspect (ctx[expr_ref], children) of the parameters: %s" % show(m["scrut"]))
     seen = {}
     for alt, arm in match_arms(m):
